@@ -40,16 +40,20 @@ def main():
     src.append("pub mod base {\n    use super::*;\n%s\n}\n" % trait_src(base["def"]))
     for t in traits:
         src.append("pub mod e_%s {\n    use super::*;\n%s\n}\n" % (t["name"], trait_src(t["def"])))
-    # group members: four small traits
-    for n in "TUVW":
-        src.append("pub mod tr_%s {\n    use super::*;\n    #[cglue_trait]\n    pub trait M%s {\n        fn f_%s(&self, a: u64) -> u64;\n    }\n}\npub use tr_%s::*;\n" % (n.lower(), n, n.lower(), n.lower()))
+    # every group module defines its own member traits (so that a member can differ between two builds of "the same" group)
+    def members(g):
+        out = []
+        for n in "TUVW":
+            aty = "u32" if n in g.get("tweak", []) else "u64"
+            out.append("    #[cglue_trait]\n    pub trait M%s {\n        fn f_%s(&self, a: %s) -> u64;\n    }\n" % (n, n.lower(), aty))
+        return "".join(out)
     gbase = [g for g in groups if g["name"] == "identical"][0]
 
     def gmac(g):
         return "cglue_trait_group!(G, { %s }, { %s });" % (", ".join("M" + x for x in g["mand"]), ", ".join("M" + x for x in g["opt"]))
-    src.append("pub mod gbase {\n    use super::*;\n    %s\n}\n" % gmac(gbase["def"]))
+    src.append("pub mod gbase {\n    use super::*;\n%s    %s\n}\n" % (members(gbase["def"]), gmac(gbase["def"])))
     for g in groups:
-        src.append("pub mod g_%s {\n    use super::*;\n    %s\n}\n" % (g["name"], gmac(g["def"])))
+        src.append("pub mod g_%s {\n    use super::*;\n%s    %s\n}\n" % (g["name"], members(g["def"]), gmac(g["def"])))
     src.append("fn v(x: VerifyLayout) -> &'static str { match x { VerifyLayout::Valid => \"Valid\", VerifyLayout::Invalid => \"Invalid\", VerifyLayout::Unknown => \"Unknown\" } }\n")
     src.append("fn mk(s: &str) -> VerifyLayout { match s { \"Valid\" => VerifyLayout::Valid, \"Invalid\" => VerifyLayout::Invalid, _ => VerifyLayout::Unknown } }\n")
     src.append("fn main() {\n    let mut out: Vec<String> = vec![];\n    let b = <base::TBox<'static> as StableAbi>::LAYOUT;\n    let gb = <gbase::GBox<'static> as StableAbi>::LAYOUT;\n")
